@@ -23,7 +23,7 @@ def mon_migrated(sc, steps, final):
     recs = [st for st in steps if "calls" in st]
     for k, obs in enumerate(recs):
         for c in obs["calls"]:
-            if c["verb"] == "create" and c["res"] == "controllerrevisions":
+            if c["verb"] == "create" and c["res"] == "controllerrevisions" and not c.get("err"):
                 bad.append("reconcile %d after the migration created ControllerRevision %s although %s records the template" % (k + 1, c["name"], newest))
             if c["verb"] == "delete" and c["res"] == "pods":
                 p = next((q for q in sc["cache"]["pods"] if q["name"] == c["name"]), None)
@@ -33,7 +33,8 @@ def mon_migrated(sc, steps, final):
                     if o in sn.desired_set:
                         bad.append("reconcile %d after the migration deleted pod %s which is at the update revision" % (k + 1, c["name"]))
     if sc.get("pre_gc"):
-        for k, obs in enumerate(recs):
+        # the first two reconciles run in the window (nothing of the built-in set may be touched), the others after the orphaning
+        for k, obs in enumerate(recs[:2]):
             for c in obs["calls"]:
                 if c["verb"] in ("patch", "update", "delete") and c["res"] == "controllerrevisions" and c.get("name") in revs and not c.get("err"):
                     bad.append("reconcile %d touched ControllerRevision %s, which the built-in set still controls" % (k + 1, c["name"]))
@@ -101,6 +102,10 @@ def run(ctx, depth):
                 for p in w["pods"]:
                     p["owner"] = dict(rc.STALE)
         sc["ops"] = [{"op": "reconcile"}, {"op": "refresh", "what": "all"}, {"op": "reconcile"}]
+        if sc.get("pre_gc"):
+            # ... then the garbage collector orphans the dependents of the built-in set, and the migration goes on
+            sc["ops"] += [{"op": "gc", "what": rc.STALE["uid"]}, {"op": "refresh", "what": "all"}, {"op": "reconcile"},
+                          {"op": "refresh", "what": "all"}, {"op": "reconcile"}]
         scs.append(sc)
     outs = core.run_harness_parallel("reconcile", scs, shards=16)
     first = []
@@ -110,8 +115,12 @@ def run(ctx, depth):
         ctx.nontriv([sc["api"]])
         bad = mon_migrated(sc, out["steps"], out["final"])
         if bad:
+            kind = "migrated"
+            if sc.get("pre_gc") and (sc["api"]["set"]["status"].get("collisionCount") or 0) >= 1 and \
+                    all(("created ControllerRevision" in b or "deleted pod" in b) for b in bad):
+                kind = "migrated-pre-gc-collision"
             ctx.violations.append({"family": "C18/migrated", "input": sc, "observed": [st for st in out["steps"] if "calls" in st][0],
-                                   "clauses": bad, "signature": {"kind": "migrated"}})
+                                   "clauses": bad, "signature": {"kind": kind}})
         sc1 = copy.deepcopy(sc)
         sc1["ops"] = [{"op": "reconcile"}]
         first.append(sc1)
